@@ -606,8 +606,9 @@ fn test_{test_name}() {{
                 TypeInner::Var(_) => self.pp_ty(func, true).append("::ty()"),
                 _ => unreachable!(),
             };
+            // the method name becomes a Rust string literal
             RcDoc::text("\"")
-                .append(id)
+                .append(id.escape_debug().to_string())
                 .append(kwd("\" :"))
                 .append(func_doc)
         });
